@@ -326,7 +326,14 @@ pub fn run_c08(ctx: &Ctx) -> i32 {
             q[t] = match profile {
                 0 => 0,
                 1 => rng.usize_below(3) as u32,
-                2 => rng.usize_below(300) as u32,
+                2 => {
+                    // up to 300, with extra weight on the word-size boundaries of one Rice code
+                    match rng.usize_below(6) {
+                        0 => (64i64 - i64::from(p) + rng.range(-2, 2)).max(0) as u32,
+                        1 => (32i64 - i64::from(p) + rng.range(-2, 2)).max(0) as u32,
+                        _ => rng.usize_below(300) as u32,
+                    }
+                }
                 7 => {
                     if rng.chance(1, 8) { big as u32 } else { rng.usize_below(4) as u32 }
                 }
